@@ -88,7 +88,11 @@ def gen_case(rng):
         row = {'time': str(max(0, t)), 'charger_id': charger, 'price_kwh': repr(price), key[0]: key[1]}
         prows.append(row)
         t += rng.choice([0, 1, delta, delta + 1, 2 * delta, rng.randint(1, 2 * delta + 2)])
-    return dict(delta=delta, t0=t0, cancel=cancel, n_steps=n_steps, fleets=fleets, env=env, sim=sim, rows=rows, prows=prows, stations=stations)
+    # some cases read the request rows the way a scenario does: from a csv file through UpdateRequestsFromFile.build (whole file in
+    # memory, or lazily).  Own stream.
+    rf = random.Random(f'via-file|{t0}|{delta}|{len(rows)}')
+    via_file = rf.choice([None, None, 'memory', 'memory', 'lazy']) if rows else None
+    return dict(delta=delta, t0=t0, cancel=cancel, n_steps=n_steps, fleets=fleets, env=env, sim=sim, rows=rows, prows=prows, stations=stations, via_file=via_file)
 
 def names_station(sim, row, st):
     if 'station_id' in row:
@@ -102,9 +106,23 @@ def run_case(c):
     env, sim = c['env'], c['sim']
     rep = CapturingReporter()
     env = env.set_reporter(rep)
-    req_reader = DictReaderStepper.from_iterator(iter(c['rows']), 'departure_time', parser=SimTime.build)
-    rec = _Recorder(req_reader)
-    req_update = UpdateRequestsFromFile(req_reader, RequestRateStructure())
+    tmpdir = None
+    if c.get('via_file'):
+        import csv, tempfile
+        tmpdir = tempfile.mkdtemp(prefix='hive-verif-c11-', dir='/var/tmp')
+        path = os.path.join(tmpdir, 'requests.csv')
+        cols = sorted(set(k for r in c['rows'] for k in r))
+        with open(path, 'w', newline='') as f:
+            wr = csv.DictWriter(f, fieldnames=cols)
+            wr.writeheader()
+            for r in c['rows']:
+                wr.writerow(r)
+        req_update = UpdateRequestsFromFile.build(path, lazy_file_reading=(c['via_file'] == 'lazy'))
+        rec = _Recorder(req_update.reader)
+    else:
+        req_reader = DictReaderStepper.from_iterator(iter(c['rows']), 'departure_time', parser=SimTime.build)
+        rec = _Recorder(req_reader)
+        req_update = UpdateRequestsFromFile(req_reader, RequestRateStructure())
     price_update = ChargingPriceUpdate(DictReaderStepper.from_iterator(iter(c['prows']), 'time', parser=SimTime.build), use_defaults=False)
     cancel_update = CancelRequests()
     viol, windows, times = [], [], []
@@ -119,6 +137,7 @@ def run_case(c):
             sim, _ = price_update.update(sim, env)
         except Exception as ex:
             viol.append(('C11', 'price_update_raised', {'step': k, 'time': now, 'exception': type(ex).__name__, 'message': str(ex)[:120]}))
+            if tmpdir: __import__('shutil').rmtree(tmpdir, ignore_errors=True)
             return viol, windows, times
         # expected prices: every row with time < now not applied yet, in file order
         while applied_rows < len(c['prows']) and int(c['prows'][applied_rows]['time']) < now:
@@ -158,6 +177,7 @@ def run_case(c):
         gotc = cancelled.get(rid, [])
         if gotc != ([] if exp_cancel is None else [exp_cancel]):
             viol.append(('C11', 'cancel_step', {'request': rid, 'departure': dep, 'cancelled_at_steps': gotc, 'expected_step': exp_cancel, 'delta': delta, 'timeout': cancel}))
+    if tmpdir: __import__('shutil').rmtree(tmpdir, ignore_errors=True)
     return viol, windows, times
 
 def coq_windows_term(c, times):
